@@ -7,7 +7,7 @@ From Coq Require Import List ZArith NArith Bool String.
 Import ListNotations.
 From DD Require Import Base.PyStr Base.Value Hash.HashModel Hash.Equiv
   Hash.HashProofsBase Hash.HashProofsC06 Hash.HashProofsC07 Hash.HashProofsMemo Hash.HashProofsK2 Hash.HexHash
-  Hash.HashAlike Hash.HashProofsAlike Hash.HashXModel.
+  Hash.HashAlike Hash.HashProofsAlike Hash.HashXModel Hash.HashProofsAlikeG Hash.HashXProofsInj Hash.HashXLeaves Hash.HashKeys Hash.HashKeysProofs Hash.HashXLeavesDelta.
 
 (* Full strength (all plain option records in the property's three modes, all
    values) is false of the faithful model: K1 and K4 below. *)
@@ -305,3 +305,89 @@ Proof.
   intro H. split; [repeat split; reflexivity|]. cbv zeta. split; [reflexivity|]. vm_compute. discriminate.
 Qed.
 Print Assumptions C07_extended_refuted.
+
+(* ------------------------------------------------------------------ *)
+(* Wave 2: the exact characterisation on the EXTENDED universe (objects aside).  [tr xo v] replaces every leaf of the
+   extended universe (date, datetime, time, timedelta, Decimal, Path) by the str that spells its result text - a leaf
+   hashes exactly like that str, which is the mechanism of K1 used as a tool - and leaves base scalars alone.  For
+   every injective separator-free hasher, apply_hash=True, plain base options, any truncate_datetime / notation /
+   type groups, no exclusion, and values whose GENUINE strs are tag-safe ([xsafe]: K1 is the exact guard; the leaves
+   themselves need no guard): equal hashes IFF the translations are alike ([heqb], Hash/HashAlike.v). *)
+Theorem C07_extended_hash_alike_exact :
+  forall (H : pystr -> pystr),
+  (forall s, s <> [] -> sepfree (H s)) -> (forall s t, H s = H t -> s = t) ->
+  forall xo a b,
+  apply_hash xo = true -> plain (xbase xo) = true ->
+  obj_free a = true -> obj_free b = true -> xsafe a = true -> xsafe b = true ->
+  (xdeephash H no_skip xo a = xdeephash H no_skip xo b <-> heqb (xbase xo) (tr xo a) (tr xo b) = true).
+Proof. exact xhash_alike. Qed.
+Print Assumptions C07_extended_hash_alike_exact.
+
+(* ... and the result texts are injective on the leaves' normal forms: a date is its (year, month, day); a datetime
+   its UTC instant after truncation ([civil_from_days] has a left inverse: [civil_roundtrip]); a time its truncated
+   seconds; a path its text; leaves of different kinds never share a text (timedelta and Decimal: the normal form is
+   the text itself - injectivity of str() on them is not proved).  [leaf_ok]: non-negative fields / year >= 0. *)
+Theorem C07_extended_leaf_texts_exact :
+  forall xo l l', plain (xbase xo) = true ->
+  leaf_ok xo l = true -> leaf_ok xo l' = true ->
+  (xleaf_result xo l = xleaf_result xo l' <-> leaf_norm xo l = leaf_norm xo l').
+Proof. exact xleaf_result_inj. Qed.
+Print Assumptions C07_extended_leaf_texts_exact.
+
+(* the relaxed K1 guard on the base universe that makes the reduction possible: a str may also begin with the type
+   tag of a leaf of the extended universe *)
+Theorem C07_hash_alike_exact_foreign_tags :
+  forall (H : pystr -> pystr),
+  (forall s, s <> [] -> sepfree (H s)) -> (forall s t, H s = H t -> s = t) ->
+  forall o a b, plain o = true -> gsafe a = true -> gsafe b = true ->
+  (hash_pure H o a = hash_pure H o b <-> heqb o a b = true).
+Proof. intros H H_tok H_inj o a b Hp. apply (hash_alike_g H H_tok H_inj o Hp). Qed.
+Print Assumptions C07_hash_alike_exact_foreign_tags.
+
+(* non-trivial instance: 12:00+02:00 and 10:00 UTC are one instant, inside a list next to a date and a path: guards
+   hold, normal forms agree, hashes agree; the next second does not *)
+Theorem C07_extended_witness :
+  let d1 := LDateTime 1577966400000000%Z (Some 120%Z) in
+  let d2 := LDateTime 1577959200000000%Z (Some 0%Z) in
+  let d3 := LDateTime 1577959201000000%Z None in
+  let mk := fun d => XList [XAtom (XL d); XAtom (XL (LDate 2020%Z 1%Z 2%Z)); XDict [(XL (LPath (s2p "/a")), XAtom (XA (AStr (s2p "x"))))]] in
+  leaf_ok default_xopts d1 = true /\ leaf_ok default_xopts d2 = true /\
+  leaf_norm default_xopts d1 = leaf_norm default_xopts d2 /\ leaf_norm default_xopts d1 <> leaf_norm default_xopts d3 /\
+  obj_free (mk d1) = true /\ xsafe (mk d1) = true /\
+  xdeephash hexhash no_skip default_xopts (mk d1) = xdeephash hexhash no_skip default_xopts (mk d2) /\
+  xdeephash hexhash no_skip default_xopts (mk d1) <> xdeephash hexhash no_skip default_xopts (mk d3).
+Proof.
+  cbv zeta. repeat split; try reflexivity.
+  - vm_compute. discriminate.
+  - vm_compute. discriminate.
+Qed.
+Print Assumptions C07_extended_witness.
+
+(* Dicts whose KEYS are containers (Hash/HashKeys.v; tuples / frozensets / nested tuples as keys): two such dicts hash
+   alike IF AND ONLY IF they hold the same multiset of (class of key, class of item) - a key is told apart exactly
+   like a value ({(1, 2): 1} against {(2,): 1}: never alike). *)
+Theorem C07_container_keys_exact :
+  forall (H : pystr -> pystr),
+  (forall s, s <> [] -> sepfree (H s)) -> (forall s t, H s = H t -> s = t) ->
+  forall o l1 l2, plain o = true ->
+  (forall kv, In kv (l1 ++ l2) -> tag_safe (fst kv) = true /\ tag_safe (snd kv) = true) ->
+  (kdict_hash H o l1 = kdict_hash H o l2 <-> mset_alike (kalike o) (kvis o l1) (kvis o l2) = true).
+Proof. exact kdict_alike. Qed.
+Print Assumptions C07_container_keys_exact.
+
+Theorem C07_container_keys_witness :
+  let l1 := [(VTuple [VAtom (AInt 1); VAtom (AInt 2)], VAtom (AInt 1))] in
+  let l2 := [(VTuple [VAtom (AInt 2)], VAtom (AInt 1))] in
+  mset_alike (kalike set_mode) (kvis set_mode l1) (kvis set_mode l2) = false /\
+  mset_alike (kalike multiset_mode) (kvis multiset_mode l1) (kvis multiset_mode l2) = false /\
+  mset_alike (kalike ordered_mode) (kvis ordered_mode l1) (kvis ordered_mode l2) = false /\
+  mset_alike (kalike set_mode) (kvis set_mode l1) (kvis set_mode l1) = true.
+Proof. exact kdict_key_pair. Qed.
+Print Assumptions C07_container_keys_witness.
+
+(* str(timedelta) is injective: for timedelta leaves the normal form "the text" of C07_extended_leaf_texts_exact is the
+   duration itself (remaining: str(Decimal)). *)
+Theorem C07_extended_timedelta_text_exact :
+  forall us us', (timedelta_text us = timedelta_text us' <-> us = us').
+Proof. intros us us'. split; [apply timedelta_text_inj|intros ->; reflexivity]. Qed.
+Print Assumptions C07_extended_timedelta_text_exact.
